@@ -85,6 +85,8 @@ def dynamic_jobs(tier, seed, prop):
             # a large scenario (state tensor of more than 1000 cells) driven to its goal and beyond
             jobs.append(dict(src=("bench_gen", "huge-gen", seed % 50), sweep=2500, seed=seed + 9, extras=False,
                              decoy=False))
+            # 68 hosts (rows beyond 64), two gateways, second episode in the opposite host order
+            jobs.append(dict(src=("corpus_dict", "big68"), sweep=1200, seed=seed + 10, extras=False, decoy=False))
             jobs.append(agt(("bench_yaml", "tiny"), 800, seed + 7, modes=ALL_MODES))
             jobs.append(agt(("bench_yaml", "small"), 700, seed + 8))
             if prop in ("C07", "C14"):
